@@ -14,7 +14,7 @@
 EXTENDS Integers, Sequences, FiniteSets, TLC
 
 VARIABLES
-  cfg,        \* [log, logStart, hw, start, qcap, maxFaults, setOffsets]
+  cfg,        \* [log, logStart, hw, start, qcap, maxFaults, setOffsets, setTargets, grow, bug]; log, hw and grow change when the log grows
   pos,        \* Conn.offset: next offset the connection will fetch from
   rpos,       \* reader.run's offset: where to resume after a reconnect (-2 = first, -1 = last, or an offset)
   phase,      \* "init" | "idle" | "reading" | "down" | "closed"
@@ -26,7 +26,8 @@ VARIABLES
   queue,      \* Reader.msgs: sequence of [ver, off]
   app,        \* [pc: "idle"|"waiting", ver] state of the application's FetchMessage call
   got,        \* messages returned by FetchMessage: [ver, off, callVer]
-  starts,     \* version -> start position given to that version (-2 = first, -1 = last, or an offset)
+  starts,     \* version -> [sym: start position given to that version (-2 = first, -1 = last, or an offset),
+              \*             abs: the offset it resolved to when the reader was positioned (Unres before)]
   faults      \* number of injected faults so far
 
 vars == <<cfg, pos, rpos, phase, pending, truncFrom, endPos, respKind, version, queue, app, got, starts, faults>>
@@ -45,9 +46,11 @@ NextStoredFrom(c, o) == { x \in Stored(c) : x >= o }
 First(c) == c.logStart
 Last(c) == c.hw
 
-\* what a start position means once the reader has initialised (reader.initialize)
-Resolve(c, s) ==
-  IF s = -2 THEN First(c) ELSE IF s = -1 THEN Last(c) ELSE Max(s, First(c))
+\* what a start position means once the reader has initialised (reader.initialize): f and l are the first and last
+\* offsets the leader reports at that moment
+ResolveAt(f, l, s) == IF s = -2 THEN f ELSE IF s = -1 THEN l ELSE Max(s, f)
+Resolve(c, s) == ResolveAt(First(c), Last(c), s)
+Unres == -3
 
 \* batches served for a fetch at p, in log order
 Served(c, p) == SelectSeq([i \in DOMAIN c.log |-> i], LAMBDA i : c.log[i].last >= p)
@@ -56,16 +59,30 @@ Init ==
   /\ pos = 0 /\ rpos = cfg.start /\ phase = "init"
   /\ pending = <<>> /\ truncFrom = 0 /\ endPos = 0 /\ respKind = "data"
   /\ version = 1 /\ queue = <<>> /\ app = [pc |-> "idle", ver |-> 0]
-  /\ got = <<>> /\ starts = <<cfg.start>> /\ faults = 0
+  /\ got = <<>> /\ starts = << [sym |-> cfg.start, abs |-> Unres] >> /\ faults = 0
 
-\* reader.initialize: dial the leader, read first/last, clamp, Seek
-Initialize ==
-  /\ phase \in {"init", "down"}
-  /\ LET o == Resolve(cfg, rpos) IN
-       /\ o <= Last(cfg)          \* beyond the end: OffsetOutOfRange, retried later
-       /\ pos' = o /\ rpos' = o
+\* reader.initialize: dial the leader, read first/last (f, l), clamp, Seek.  This is the moment a symbolic position
+\* (first / last) is resolved: the first resolution of a version is the offset the reader is positioned at, and the
+\* restart offset becomes absolute (reader.run: offset = start), so that a later reconnect does not resolve it again.
+\* Defects (vacuity guards): "reResolve": the restart offset stays symbolic until the first delivery;
+\* "restartFromStart": every reconnect starts again from the position the version was given.
+Positioned(f, l) ==
+  /\ LET s == IF cfg.bug = "restartFromStart" THEN starts[version].sym ELSE rpos
+         o == ResolveAt(f, l, s) IN
+       /\ o <= l                  \* beyond the end: OffsetOutOfRange, retried later
+       /\ pos' = o
+       /\ rpos' = IF cfg.bug = "reResolve" THEN rpos ELSE o
+       /\ starts' = IF starts[version].abs = Unres THEN [starts EXCEPT ![version].abs = o] ELSE starts
   /\ phase' = "idle"
-  /\ UNCHANGED <<cfg, pending, truncFrom, endPos, respKind, version, queue, app, got, starts, faults>>
+  /\ UNCHANGED <<cfg, pending, truncFrom, endPos, respKind, version, queue, app, got, faults>>
+
+Initialize == phase \in {"init", "down"} /\ Positioned(First(cfg), Last(cfg))
+
+\* a producer appends the next batch to the partition
+Grow ==
+  /\ cfg.grow # <<>>
+  /\ cfg' = [cfg EXCEPT !.log = Append(@, Head(cfg.grow)), !.hw = Max(@, Head(cfg.grow).last + 1), !.grow = Tail(@)]
+  /\ UNCHANGED <<pos, rpos, phase, pending, truncFrom, endPos, respKind, version, queue, app, got, starts, faults>>
 
 (***************************************************************************)
 (* The broker answers a fetch at pos with nb whole batches followed by the *)
@@ -128,8 +145,9 @@ Respond(kind, nb, truncated, th, j) ==
 RespondError(code) ==
   /\ phase = "idle" /\ faults < cfg.maxFaults
   /\ faults' = faults + 1
-  /\ CASE code = "NotLeader" -> phase' = "down" /\ UNCHANGED pos
-       [] code = "TimedOut" -> phase' = "idle" /\ UNCHANGED pos
+  /\ CASE code \in {"NotLeader", "UnknownTopic"} -> phase' = "down" /\ UNCHANGED pos     \* the reader reconnects
+       \* retried on the same connection (another broker error is handed to the application first)
+       [] code \in {"TimedOut", "Surfaced"} -> phase' = "idle" /\ UNCHANGED pos
        \* the log start moved past the position (retention): continue at the first offset still available
        [] code = "OutOfRange" -> pos < First(cfg) /\ phase' = "idle" /\ pos' = First(cfg)
        [] OTHER -> FALSE
@@ -174,6 +192,21 @@ EndResponse ==
   /\ truncFrom' = 0
   /\ UNCHANGED <<cfg, rpos, pending, endPos, respKind, version, queue, app, got, starts, faults>>
 
+\* the read deadline passes before the end of the response is reached (a slow link, a slow consumer): the batch is closed
+\* where the reader got to (RequestTimedOut, retried on the same connection), the rest is asked for again
+TimeoutResponse ==
+  /\ phase = "reading" /\ respKind = "data"
+  /\ pending' = <<>> /\ truncFrom' = 0 /\ phase' = "idle"
+  /\ UNCHANGED <<cfg, pos, rpos, endPos, respKind, version, queue, app, got, starts, faults>>
+
+\* the client gives up on the connection while the answer is on its way or being read (the read deadline passes on a slow
+\* link, the connection is reset): what was not handed over yet is asked for again on the next connection
+AbandonResponse ==
+  /\ phase = "reading" /\ respKind = "data" /\ faults < cfg.maxFaults
+  /\ faults' = faults + 1
+  /\ pending' = <<>> /\ truncFrom' = 0 /\ phase' = "down"
+  /\ UNCHANGED <<cfg, pos, rpos, endPos, respKind, version, queue, app, got, starts>>
+
 \* the connection is lost while records of the response are still being read
 CutNow ==
   /\ phase = "reading" /\ respKind = "cut"
@@ -184,7 +217,7 @@ CutNow ==
 SetOffset(o) ==
   /\ phase # "closed" /\ version <= cfg.setOffsets
   /\ version' = version + 1
-  /\ starts' = Append(starts, o)
+  /\ starts' = Append(starts, [sym |-> o, abs |-> Unres])
   /\ rpos' = o /\ phase' = "init"
   /\ pending' = <<>> /\ truncFrom' = 0
   /\ UNCHANGED <<cfg, pos, endPos, respKind, queue, app, got, faults>>
@@ -206,11 +239,19 @@ AppReceive ==
   /\ queue' = Tail(queue)
   /\ UNCHANGED <<cfg, pos, rpos, phase, pending, truncFrom, endPos, respKind, version, starts, faults>>
 
+\* the call's context is done (cancelled, deadline): FetchMessage returns its error and has consumed nothing
+\* (defect "cancelDrops": a message received at the same time is thrown away)
+AppAbandon ==
+  /\ app.pc = "waiting"
+  /\ app' = [app EXCEPT !.pc = "idle"]
+  /\ queue' = IF cfg.bug = "cancelDrops" /\ queue # <<>> THEN Tail(queue) ELSE queue
+  /\ UNCHANGED <<cfg, pos, rpos, phase, pending, truncFrom, endPos, respKind, version, got, starts, faults>>
+
 Next ==
-  \/ Initialize \/ DeliverOne \/ DropTruncated \/ EndResponse \/ CutNow \/ AppBegin \/ AppReceive
-  \/ ConnLost \/ RespondShort
+  \/ Initialize \/ DeliverOne \/ DropTruncated \/ EndResponse \/ CutNow \/ AppBegin \/ AppReceive \/ AppAbandon
+  \/ Grow \/ ConnLost \/ RespondShort \/ TimeoutResponse \/ AbandonResponse
   \/ \E k \in {"data", "cut"}, nb \in 0 .. 3, t \in BOOLEAN, th \in BOOLEAN, j \in 0 .. 3 : Respond(k, nb, t, th, j)
-  \/ \E c \in {"NotLeader", "TimedOut"} : RespondError(c)
+  \/ \E c \in {"NotLeader", "UnknownTopic", "TimedOut", "Surfaced"} : RespondError(c)
   \/ \E o \in cfg.setTargets : SetOffset(o)
 
 Spec == Init /\ [][Next]_vars
@@ -218,13 +259,15 @@ Spec == Init /\ [][Next]_vars
 -----------------------------------------------------------------------------
 \* messages the application got from the current subscription version v
 GotOf(v) == SelectSeq(got, LAMBDA m : m.ver = v)
-ExpectedFrom(v) == SetToSortedSeq(NextStoredFrom(cfg, Resolve(cfg, starts[v])))
+ExpectedFrom(v) == SetToSortedSeq(NextStoredFrom(cfg, starts[v].abs))
 IsPrefix(s, t) == Len(s) <= Len(t) /\ \A i \in DOMAIN s : s[i] = t[i]
 
-\* C02: exactly the stored records from the start position, in order, once each, no gaps
+\* C02: exactly the stored records from the position the reader was positioned at (what first / last meant at that
+\* moment, however the log grew afterwards), in order, once each, no gaps
 C02_ExactStream ==
   \A v \in DOMAIN starts :
-     IsPrefix([i \in DOMAIN GotOf(v) |-> GotOf(v)[i].off], ExpectedFrom(v))
+     IF starts[v].abs = Unres THEN GotOf(v) = <<>>
+     ELSE IsPrefix([i \in DOMAIN GotOf(v) |-> GotOf(v)[i].off], ExpectedFrom(v))
 
 \* C02: a FetchMessage call that begins after SetOffset returned never gets an older version's message
 C02_AfterSetOffset == \A i \in DOMAIN got : got[i].ver >= got[i].callVer
